@@ -10,13 +10,13 @@ CONSTANTS
   Cells = {1}
   Contigs = {1}
   Strands = {0}
-  Sites = {0,1,2}
+  Sites = {0,2}
   Lens = {1, 3}
-  Umis = {0, 1}
+  Umis = {0, 1, 6}
   Valids = {TRUE}
   MaxFrags = 5
   Scheds = {0}
-  Poolings = {0, 1}
+  Poolings = {0}
   Variant = "design"
 INVARIANT Inv_Conservation
 CONSTRAINT Emit
